@@ -492,16 +492,14 @@ func runPureD(entry string, inp []byte, bm string) PureD {
 		err := decodeEntry(m, entry, &cp)
 		e.InpAfter = ev.Ints(cp)
 		e.Ok = err == nil
-		if e.Ok {
-			e.D1 = rm.Project(m)
-		}
+		// accepted or rejected: what the call left in the message (the complete message, or the part that was decoded before
+		// the error) shares no memory with the input
+		e.D1 = rm.Project(m)
 		for i := range cp {
 			cp[i] = ^cp[i]
 		}
-		if e.Ok {
-			e.DScr = rm.Project(m)
-			rm.ScribbleMessage(m)
-		}
+		e.DScr = rm.Project(m)
+		rm.ScribbleMessage(m)
 		e.InpScr = ev.Ints(cp)
 		interleave()
 		m2 := nas.NewMessage()
@@ -511,8 +509,9 @@ func runPureD(entry string, inp []byte, bm string) PureD {
 		lvl := lg.GetLevel()
 		lg.SetLevel(logrus.TraceLevel)
 		defer lg.SetLevel(lvl)
-		if err2 := decodeEntry(m2, entry, &cp2); err2 == nil {
-			e.DTwice = rm.Project(m2)
+		err2 := decodeEntry(m2, entry, &cp2)
+		e.DTwice = rm.Project(m2)
+		if err2 == nil {
 			remember(m2)
 		}
 	})
@@ -610,6 +609,69 @@ func runPureE(c Case) PureE {
 	if pi != nil {
 		e.Panic, e.Pfn = true, pi.Fn+": "+pi.Kind
 	}
+	if pi == nil && e.Ok && len(kept) < 20000 && keptOctets+len(e.Tail) <= 48<<20 {
+		kept = append(kept, keptEnc{int(atomic.LoadInt64(&cur)), m, e.Tail, time.Now()})
+		keptOctets += len(e.Tail)
+	}
+	return e
+}
+
+// keptEnc: a message that was encoded (PureE), kept as it is, to be encoded once more LATER (case kind "later"): the octets
+// are a function of the message, not of the moment of the call
+type keptEnc struct {
+	idx  int // index of the case that built it
+	m    *nas.Message
+	tail []int
+	at   time.Time
+}
+
+var kept []keptEnc
+var keptOctets int
+
+type PureLater struct {
+	Op    string  `json:"op"`
+	N     int     `json:"n"`     // messages encoded again
+	Wait  int     `json:"wait"`  // milliseconds between the first encoding of the last of them and this case
+	Which []int   `json:"which"` // case indexes whose later encoding differs from the first (or fails)
+	First [][]int `json:"first"`
+	Later [][]int `json:"later"`
+}
+
+func runLater() PureLater {
+	e := PureLater{Op: "PureLater", N: len(kept), Which: []int{}, First: [][]int{}, Later: [][]int{}}
+	if len(kept) == 0 {
+		return e
+	}
+	if d := time.Since(kept[len(kept)-1].at); d < 1100*time.Millisecond {
+		time.Sleep(1100*time.Millisecond - d) // across a boundary of the wall clock's seconds
+	}
+	e.Wait = int(time.Since(kept[len(kept)-1].at) / time.Millisecond)
+	for _, k := range kept {
+		var now []int
+		ev.Guard(func() {
+			buf := new(bytes.Buffer)
+			var err error
+			if k.m.GmmMessage != nil {
+				err = k.m.GmmMessageEncode(buf)
+			} else {
+				err = k.m.GsmMessageEncode(buf)
+			}
+			if err == nil {
+				now = ev.Ints(buf.Bytes())
+			}
+		})
+		same := now != nil && len(now) == len(k.tail)
+		for i := 0; same && i < len(now); i++ {
+			same = now[i] == k.tail[i]
+		}
+		if !same && len(e.Which) < 20 {
+			if now == nil {
+				now = []int{}
+			}
+			e.Which, e.First, e.Later = append(e.Which, k.idx), append(e.First, k.tail), append(e.Later, now)
+		}
+	}
+	kept, keptOctets = nil, 0
 	return e
 }
 
@@ -746,6 +808,8 @@ func execCase(c Case, rng *rand.Rand, emit func(interface{})) {
 		} else {
 			emit(runDec(c.Entry, inp, c.Big, c.M, true))
 		}
+	case "later":
+		emit(runLater())
 	case "dechold": // Inp is decoded; then Inp2 is decoded into ANOTHER fresh nas.Message (and re-encoded) while the first message is
 		// held; the event describes the FIRST decode, projected only afterwards: a decoded message owns its bodies and elements
 		m := nas.NewMessage()
